@@ -70,8 +70,21 @@ package ports
 // every port of [16000, 65535] has been rejected.
 //@ func (*PortManager).PickEphemeralPort props C10
 //@   pure_param testPort
+//@   modifies everything()
 //@   ensures implies(err == nil, port >= 16000 && callp1(testPort, port))
 //@   ensures implies(err == tcpip.ErrNoPortAvailable && forall(q, 16000, 65536, callp2(testPort, uint16(q)) == nil),
 //@             forall(p, 16000, 65536, using((p - 16000 - int(local(offset)) + 49536) % 49536, !callp1(testPort, uint16(p)))))
 //@   loop 1 invariant count == 49536 && uint32(offset) < 49536 && i <= count
 //@   loop 1 invariant forall(k, 0, int(i), !callp1(testPort, uint16(16000 + (int(offset) + k) % 49536)) && callp2(testPort, uint16(16000 + (int(offset) + k) % 49536)) == nil)
+
+// ReservePort with an explicit port: succeeds only if the binding was available on every
+// network and then holds it; otherwise it fails with ErrPortInUse.
+//@ func (*PortManager).ReservePort props C10
+//@   requires pmOK(s)
+//@   ensures implies(port != 0 && err == nil, reservedPort == port)
+//@   ensures implies(port != 0 && err == nil, pmOK(s))
+//@   ensures implies(port != 0 && err == nil, forall(j, 0, len(networks), heldOn(s, networks[j], transport, addr, port)))
+//@   ensures implies(port != 0 && err == nil, old(forall(j, 0, len(networks), availOn(s, networks[j], transport, addr, port))))
+//@   ensures implies(port != 0 && !old(forall(j, 0, len(networks), availOn(s, networks[j], transport, addr, port))), err == tcpip.ErrPortInUse)
+//@   ensures implies(port == 0 && err == nil, reservedPort >= 16000)
+//@   modifies everything()
